@@ -10,7 +10,7 @@ class C01(Spec):
     component = 'tree'
     driver = 'tree'
     lib_srcs = ['bintree.c', 'rbtree.c']
-    header_words = ('keys', 'kind')
+    header_words = ('keys', 'kind', 'cmpmode')
     rule = ('cases = corpus + one case per edge of the breadth-first closure of the Coq model (binary tree and '
             'red-black tree, 5 elements with keys 0 0 1 1 2 in the quick tier, 7 elements in the thorough tier; '
             'insert with and without hint, find, erase, foreach in both directions with stop tables, clear, height, '
@@ -142,16 +142,18 @@ class C01(Spec):
         if tier == 'quick':
             scopes = [('bin', [0, 0, 1, 1, 2]), ('rb', [0, 0, 1, 1, 2]), ('rb', [1, 0, 1, 2, 0, 1])]
         else:
-            scopes = [('bin', [0, 0, 1, 1, 2, 2, 3]), ('rb', [0, 0, 1, 1, 2, 2, 3]),
-                      ('bin', [1, 0, 1, 2, 0, 1]), ('rb', [2, 1, 0, 1, 2, 1, 0])]
+            scopes = [('bin', [0, 0, 1, 1, 2, 2]), ('rb', [0, 0, 1, 1, 2, 2]),
+                      ('bin', [0, 0, 1, 1, 2, 2, 3], 'all-sparse'), ('rb', [0, 0, 1, 1, 2, 2, 3], 'all-sparse'),
+                      ('bin', [1, 0, 1, 2, 0, 1], 'all-sparse'), ('rb', [2, 1, 0, 1, 2, 1, 0], 'all-sparse')]
         cases, tot = [], dict(states=0, transitions=0, closed=True)
-        for kind, keys in scopes:
-            cs, st = self.bfs([kind, 2000000, 'all'] + keys)
+        for sc in scopes:
+            kind, keys = sc[0], sc[1]
+            cs, st = self.bfs([kind, 2000000, sc[2] if len(sc) > 2 else 'all'] + keys)
             cases += cs
             tot['states'] += st.get('states', 0)
             tot['transitions'] += st.get('transitions', 0)
             tot['closed'] = tot['closed'] and st.get('closed', False)
-        return cases, tot
+        return T.with_cmpmodes(cases), tot
 
     def random_cases(self, tier, seed):
         rnd = random.Random(seed * 7919 + 101)
